@@ -34,7 +34,7 @@ EXHAUSTIVE = True
 
 
 def bounds(tier):
-    return {"max_steps": 3 if tier == "quick" else 4, "bgzf_max_cuts": 2, "small_file_records": 5}
+    return {"max_steps": 3 if tier == "quick" else 5, "bgzf_max_cuts": 2 if tier == "quick" else 3, "small_file_records": 5}
 
 
 AWKWARD = ["ds:Z:*2+a-t", "zz:Z:a b:c", "xi:i:-5", "fl:f:-0.5"]
